@@ -34,6 +34,11 @@
 (* tasks are finished), or in the "writer" (process_patches raises when    *)
 (* it handles the item with that record: the writer process dies with a    *)
 (* non-zero exit code while the main process carries on feeding the queue).*)
+(* cfg.Kill: the environment may SIGKILL the writer process (OOM killer,   *)
+(* operator): "init" = before it ran a statement, "get" = at any moment    *)
+(* while it is in its receive loop.  Its exit code is then negative; the   *)
+(* creation must raise (and not, e.g., load a catalog that was to be       *)
+(* overwritten).                                                           *)
 (*                                                                         *)
 (* Deviations (code as found):                                             *)
 (*  "FinalizeOnException"  CatalogWriter.__exit__ finalises on the error   *)
@@ -51,7 +56,7 @@
 (***************************************************************************)
 EXTENDS Naturals, Sequences, FiniteSets, TLC
 
-CONSTANTS MaxL, MaxCS, Ws, Pres, Faults, Wheres, Deviations
+CONSTANTS MaxL, MaxCS, Ws, Pres, Faults, Wheres, Kills, Deviations
 
 NP == 2                                   \* patches / given centres
 
@@ -82,10 +87,12 @@ Part(k, j) == { r \in ChunkRecs(k) : PartOf(k, r) = j }
 FaultRec == (cfg.FaultChunk - 1) * CS + 1
 
 Init == /\ \E l \in 1..MaxL, cs \in 1..MaxCS, w \in Ws, pre \in Pres, ow \in BOOLEAN,
-              f \in Faults, ec \in BOOLEAN, wh \in Wheres :
+              f \in Faults, ec \in BOOLEAN, wh \in Wheres, kl \in Kills :
              /\ (f > 0 => f <= (l + cs - 1) \div cs)          \* fault in an existing chunk
              /\ (f = 0 => wh = "reader")
-             /\ cfg = [L |-> l, CS |-> cs, W |-> w, Pre |-> pre, Ow |-> ow, FaultChunk |-> f, EmptyCentre |-> ec, Where |-> wh]
+             /\ (kl # "none" => (f = 0 /\ ~ec /\ w > 1))
+             /\ cfg = [L |-> l, CS |-> cs, W |-> w, Pre |-> pre, Ow |-> ow, FaultChunk |-> f, EmptyCentre |-> ec,
+                       Where |-> wh, Kill |-> kl]
         /\ mpc = "start" /\ wpc = "notstarted" /\ c = 1 /\ pending = {} /\ q = <<>>
         /\ file = [pp \in 0..(NP - 1) |-> {}]
         /\ dir = cfg.Pre /\ ids = (cfg.Pre = "old")
@@ -219,6 +226,13 @@ WGet ==
     /\ q' = Tail(q)
     /\ UNCHANGED <<cfg, mpc, c, pending, outcome, loaded, werr>>
 
+(* environment: the writer process is killed by a signal *)
+WKill ==
+    /\ \/ cfg.Kill = "init" /\ wpc = "init"
+       \/ cfg.Kill = "get" /\ wpc = "get"
+    /\ wpc' = "exited" /\ wexit' = 9
+    /\ UNCHANGED <<cfg, mpc, c, pending, q, file, dir, ids, outcome, loaded, werr>>
+
 ---------------------------------------------------------------------------
 (* load_patches: open whatever is at the path *)
 Load ==
@@ -237,7 +251,7 @@ SomeWorkFail == \E j \in 1..4 : WorkFail(j)
 
 Next == \/ SeqInit \/ SeqChunk \/ SeqFault \/ SeqFinal
         \/ MStart \/ MRead \/ SomeWork \/ SomeWork3 \/ SomeWorkFail \/ MMapDone \/ MPutEOQ \/ MFault \/ MJoin
-        \/ WInit \/ WGet \/ Load
+        \/ WInit \/ WGet \/ WKill \/ Load
         \/ (Done /\ UNCHANGED vars)
 
 Spec == Init /\ [][Next]_vars /\ WF_vars(Next)
@@ -251,7 +265,7 @@ InitDirAtStart ==      \* what __init__ does with the path as found
       [] cfg.Pre = "old" -> "building"
       [] OTHER -> "ERR"                                   \* foreign dir or file: must raise
 
-Faulty == cfg.FaultChunk > 0 \/ HasEmptyPatch \/ InitDirAtStart = "ERR"
+Faulty == cfg.FaultChunk > 0 \/ HasEmptyPatch \/ InitDirAtStart = "ERR" \/ wexit = 9
 
 (* C02: a successful creation stored every record exactly once in its patch,
    whatever chunk size, worker count and schedule *)
@@ -271,5 +285,5 @@ NoOpenableDirAfterFailure == (outcome = "raised" /\ dir # "old") => ~ids
 TypeOK == /\ c \in 1..(NC + 1) /\ pending \subseteq 1..4 /\ werr \in BOOLEAN
           /\ \A pp \in 0..(NP - 1) : file[pp] \subseteq Records
 
-PrintDone == Done => PrintT(<<"done", cfg, outcome, loaded, dir, ids>>)
+PrintDone == Done => PrintT(<<"done", cfg, outcome, loaded, dir, ids, wexit = 9>>)
 =============================================================================
